@@ -9,8 +9,9 @@ Extracted with Python's ast, fail closed (anything outside the subset => exit 1,
     the attribute names handed to self.iterator(...) in order and the list non_list_children;
     the module-level dict literal SCOPE_LINK_TYPES (kind word -> tuple of attribute names) and the shape of
     FortranBase.find_in_scope / find_child that give it meaning
-  * ford/_markdown.py: convert_link searches the context with find_in_scope, and handleMatch turns
-    ValueError / RuntimeError into a warning and plain text (the model's [settle])
+  * ford/_markdown.py: convert_link searches the context with find_in_scope; an item that is found but
+    not displayed (page owner not visible / FortranBase.page_is_written() false) is plain text; handleMatch
+    turns ValueError / RuntimeError into a warning and plain text (the model's [settle])
 """
 import ast
 import os
@@ -106,6 +107,35 @@ def check_scope_lookup(sf, mdtree):
     pf = {n.name: ast.unparse(n) for n in pcls[0].body if isinstance(n, ast.FunctionDef)}
     if "return context.find_in_scope(name, m['entity'])" not in pf.get("convert_link", ""):
         refuse("convert_link no longer searches the context with find_in_scope")
+    # what happens to the item that was found: not displayed -> plain text; no URL -> RuntimeError; else link
+    tail = ("settings = getattr(self.project, 'settings', None)\n"
+            "    if getattr(item, 'obj', None) == 'sourcefile' and (not getattr(settings, 'incl_src', True)):\n"
+            "        link.text = item.name\n        return link\n"
+            "    page_owner = item.parent if getattr(item, 'is_interface_procedure', False) else item\n"
+            "    if getattr(item, 'get_dir', lambda: None)() is not None and (not getattr(page_owner, 'visible', True)) "
+            "or not getattr(item, 'page_is_written', lambda: True)():\n"
+            "        warn(f\"{self.warn_prefix}Not linking {m.group()}: '{item.name}' is not displayed\")\n"
+            "        link.text = item.name\n        return link\n"
+            "    if (item_url := item.get_url()) is None:\n"
+            "        raise RuntimeError(f'Found item {name} but no url')\n"
+            "    if item_url.startswith('http'):\n        rel_url = item_url\n    else:\n"
+            "        full_url = self.md.base_url / item_url\n"
+            "        rel_url = relpath(full_url, self.md.current_path)\n"
+            "    link.attrib['href'] = str(rel_url)\n    link.text = item.name\n    return link")
+    if not pf.get("convert_link", "").endswith(tail):
+        refuse("the end of convert_link (displayed / URL / href) changed")
+    piw = [n for n in cls.body if isinstance(n, ast.FunctionDef) and n.name == "page_is_written"]
+    if len(piw) != 1:
+        refuse("FortranBase.page_is_written not found")
+    body = [n for n in piw[0].body if not (isinstance(n, ast.Expr) and isinstance(n.value, ast.Constant))]
+    want = ("if self.get_dir() is not None:\n    return True\n"
+            "parent = getattr(self, 'parent', None)\n"
+            "if parent is None or isinstance(parent, str):\n    return True\n"
+            "if getattr(parent, 'is_interface_procedure', False):\n    parent = parent.parent\n"
+            "if not getattr(parent, 'visible', True):\n    return False\n"
+            "return getattr(parent, 'page_is_written', lambda: True)()")
+    if "\n".join(ast.unparse(n) for n in body) != want:
+        refuse("FortranBase.page_is_written changed")
     for needle in ["link = self.convert_link(m)", "except (ValueError, RuntimeError) as e:", "link.text = m['name']"]:
         if needle not in pf.get("handleMatch", ""):
             refuse(f"FordLinkProcessor.handleMatch no longer contains `{needle}`")
